@@ -894,7 +894,7 @@ def check_extend(ctx, mi, rng):
         res = []
         for m, mu in ((mi, mu_i), (mo, mu_o)):
             fr = forest(m, x)
-            par, kept, A, rex = expected_parent_map(m, fr, S, opts)
+            par, kept, A, rex = expected_parent_map(m, fr, S, opts)[:4]
             res.append(expected_mutation_node(fr, mu[1], kept, A, rex) if mu[1] in A else None)
         if res[0] != res[1]:
             bad("extend_haplotypes/simplified-mutation-node-changed",
